@@ -248,7 +248,7 @@ static void iauth_xquery_report_stats(void)
         stats.n_srv_allocs, stats.n_srv_frees, stats.n_cli_allocs);
 }
 
-/** Counts the services ever put into the table. */
+/** Counts the changes to the service table (services added, rescans). */
 static unsigned int iauth_xquery_epoch;
 
 /** Look up our state for \a req.
@@ -257,6 +257,9 @@ static unsigned int iauth_xquery_epoch;
  * to a new service once its previous occupant is gone.  What a client
  * noted about the previous occupant says nothing about the new one, so
  * forget the bits of every slot that changed hands since we last looked.
+ * A service that was taken out of the configuration lingers in its slot
+ * only while some client still awaits its answer; what this client noted
+ * about it (a pending challenge, say) is void either way.
  */
 static struct iauth_xquery_client *iauth_xquery_find_client(struct iauth_request *req)
 {
@@ -271,8 +274,9 @@ static struct iauth_xquery_client *iauth_xquery_find_client(struct iauth_request
         return cli;
     for (ii = 0; (ii < iauth_xquery_services.used) && (ii < 32); ++ii) {
         srv = iauth_xquery_services.vec[ii];
-        if (srv && (srv->epoch > cli->epoch)) {
-            cli->sent_mask &= ~(1u << ii);
+        if (!srv || !srv->configured || (srv->epoch > cli->epoch)) {
+            /* (An answer that is still awaited is still awaited.) */
+            cli->sent_mask &= ~(1u << ii) | cli->ref_mask;
             cli->more_mask &= ~(1u << ii);
             cli->ok_mask &= ~(1u << ii);
         }
@@ -719,6 +723,9 @@ static void iauth_xquery_services_changed(struct conf_node_base *node)
         /* Check for unreferenced services. */
         for (ii = 0; ii < iauth_xquery_services.used; ++ii)
             iauth_xquery_unref(ii);
+
+        /* Make the clients look at the table again. */
+        ++iauth_xquery_epoch;
     }
 }
 
